@@ -19,8 +19,10 @@ let bytes_of_hex (s : string) : n list =
   end
 
 let buf = Buffer.create 65536
+let hide_m = ref false   (* sweeps of properties other than C19 hash the lines without the sentence-level message type *)
 let rec pr (t : tok) : unit =
   match t with
+  | TA (k, _) when !hide_m && int_of_n k = 109 -> Buffer.add_string buf "m_"
   | TA (k, v) -> Buffer.add_char buf (Char.chr (int_of_n k)); Buffer.add_string buf (string_of_int (int_of_z v))
   | TB (k, l) ->
     Buffer.add_char buf (Char.chr (int_of_n k));
@@ -74,7 +76,9 @@ let () =
       | ["X"; hex] ->
         let recs = cli q (bytes_of_hex hex) in
         pr (TN (n_of_int 108, List.map (t_cli fbits) recs)); flush_line ()
-      | ["A"; p1; p2; d; fix; hex] ->
+      | ["A"; p1; p2; d; fix; flags; hex] ->
+        let flags = int_of_string flags in
+        hide_m := (flags land 2 = 0);
         (* two-byte sweep (see the harness): digest of the 65536 token lines *)
         let p1 = int_of_string p1 and p2 = int_of_string p2 in
         let bytes = Bytes.of_string (let l = String.length hex / 2 in String.init l (fun i -> Char.chr (int_of_string ("0x" ^ String.sub hex (2 * i) 2)))) in
@@ -94,13 +98,14 @@ let () =
               | _ -> ());
             let line = List.init len (fun i -> n_of_int (Char.code (Bytes.get bytes i))) in
             let (st', o) = step c q p_init line (d = "1") in
-            pr (t_step fbits o); Buffer.add_string buf " ; "; pr (t_state st'); Buffer.add_char buf '\n';
+            pr (t_step fbits o); (if flags land 1 <> 0 then (Buffer.add_string buf " ; "; pr (t_state st'))); Buffer.add_char buf '\n';
             String.iter (fun ch ->
               h1 := ((!h1 lxor Char.code ch) * 16777619) land 0xFFFFFFFF;
               h2 := ((!h2 lxor Char.code ch) * 709607) land 0xFFFFFFFF) (Buffer.contents buf);
             Buffer.clear buf
           done
         done;
+        hide_m := false;
         Buffer.add_string buf (Printf.sprintf "A %08x%08x" !h1 !h2); flush_line ()
       | ["B"; p1; p2; hex] ->
         let p1 = int_of_string p1 and p2 = int_of_string p2 in
@@ -129,6 +134,19 @@ let () =
         done;
         Buffer.add_string buf (Printf.sprintf "F %08x%08x" !h1 !h2); flush_line ()
       | ["f"; which; raw] -> pr_optf (scaled which (int_of_string raw)); flush_line ()
+      | ["W"; hex] ->
+        (* sentence-level acceptance alone (grammar and checksum, no sequencing, no decoding):
+           w0 accepted, w2 rejected by the grammar, w3 checksum mismatch *)
+        (match parse_nmea_sentence c q (bytes_of_hex hex) with
+         | Ok ((raw, _), checksum) -> Buffer.add_string buf (if int_of_n checksum = int_of_n (xor_fold raw) then "w0" else "w3")
+         | _ -> Buffer.add_string buf "w2");
+        flush_line ()
+      | ["T"; count; off; hex] ->
+        (match nom_take (nat_of_int (int_of_string count)) (bytes_of_hex hex) (nat_of_int (int_of_string off)) with
+         | Ok ((rest, eo), v) ->
+           Buffer.add_string buf (Printf.sprintf "(k c0 i%d q%d q%d)" (int_of_n v) (List.length rest) (int_of_n (N.of_nat eo)))
+         | _ -> Buffer.add_string buf "(k c2)");
+        flush_line ()
       | [""] | [] -> ()
       | _ -> failwith ("bad case line: " ^ line)
     done
